@@ -161,3 +161,39 @@ _add(
                'with sys.settrace line pre-emption, seeded schedule search, '
                'alone-run reference, scripted replay'),
 )
+
+_add(
+    'C16', machine='history', level='exploration',
+    tiers={'quick': {'count': 9000, 'budget_s': 45},
+           'thorough': {'count': 500000, 'budget_s': 840}},
+    rule=('1-3 real threads under the baton scheduler, each running <= 14 ops '
+          '(all C03 edits incl. invalid ones, TaggedValue assignment, tag API, '
+          'update_callable +- drop, materialize_defaults, assign, copy_with, '
+          'copy / deepcopy / pickle, nested suspend_tracking) on its own '
+          'configs; oracle from snapshots of the implementation\'s own '
+          '__arguments__ / tag sets before and after every op; non-trivial = '
+          '>= 3 ops; distinct = distinct (programs, interleaving digest)'),
+    real_vs_stub=REAL + 'real threads; stub: configured callables, scheduler',
+    assumptions=['tag-API calls (add_tag, set_tagged, ...) are attributed to '
+                 'fiddle/_src/tagging.py today; the location clause is asserted '
+                 'for attribute/index/slice edits, assign, copy_with, '
+                 'update_callable, materialize_defaults and constructors only',
+                 'an entry records the object stored at that time; later '
+                 'in-place mutation of a nested value is not a change of the '
+                 'parameter',
+                 'line-level pre-emption only (see C19)'],
+    required_probes=['value_entries', 'tag_entries', 'edit_under_suspension',
+                     'varargs_shift_with_history', 'locations_checked',
+                     'eq_pairs'],
+    level_text=('seeded search over edit histories x line-level interleavings; '
+                'after every operation the new history entries are checked '
+                'against what was really stored (per-key change detection '
+                'from snapshots), sequence ids over all threads, caller '
+                'attribution, suspension, and history-independence of == and '
+                'build by replaying each program under suspend_tracking'),
+    design_ref='DESIGN.md 4 (C16), 2.5',
+    level_note=('trusted: snapshots of __arguments__/__argument_tags__ as the '
+                'ground truth of what was stored; canon; scheduler'),
+    technique=('deterministic simulation: seeded edit histories on 1-3 '
+               'scheduled threads, snapshot-derived history oracle, replay'),
+)
